@@ -31,8 +31,8 @@ def run(prog):
                 chain.append((bi, stage[0], src, t))
     names = [c[1] for c in chain]
     res.inst("stages", order=names)
-    if sorted(names) != sorted(STAGES):
-        res.viol("stages/census", f.loc, "expected the four pre-processing stages %s chained with and_then, found %s" % (STAGES, names))
+    if set(names) != set(STAGES) or names.count("expand_includes") != 1 or names.count("expand_templates") != 1:
+        res.viol("stages/census", f.loc, "expected the pre-processing stages %s chained with and_then (includes and templates once), found %s" % (STAGES, names))
         return res
     # order by data flow: each stage's receiver is the previous stage's result
     prev_block = parse[0][0] if parse else None
@@ -48,12 +48,18 @@ def run(prog):
         prev_block = nxt[0][0]
         remaining.remove(nxt[0])
     res.inst("data-flow-order", order=order)
-    ok = ok_chain and order == STAGES
+    # includes first (everything else must see the included items); the platform and environment filters run at least once
+    # after the includes and at least once after template expansion (a template can produce platform / environment items)
+    def after(stage, what):
+        return stage in order and what in order[order.index(stage) + 1:]
+    ok = (ok_chain and len(order) == len(chain) and order[:1] == ["expand_includes"]
+          and after("expand_templates", "filter_platform_specific_cfg") and after("expand_templates", "filter_env_specific_cfg"))
     res.oblige(ok)
     if not ok:
         res.viol("stage-order", f.loc,
-                 "pre-processing order is %s, expected %s: e.g. filtering platforms before expanding includes leaves "
-                 "(platform ...) items of included files unprocessed" % (order or names, STAGES))
+                 "pre-processing order is %s: includes must come first, and the platform / environment filters must run (again) after "
+                 "template expansion - otherwise (platform ...) items of included files or produced by templates are left unprocessed"
+                 % (order or names))
     last_stage_block = prev_block if ok_chain else None
     # variables before any parser that resolves variables
     pv = blocks_calling(f, f.reachable(), [CFG + "parse_vars"])
